@@ -295,3 +295,51 @@ def lifecycle_scenarios(rich: bool) -> list[dict]:
             events = [dict({"t": round(T + d, 7), "ev": ev, "hops": 0}, **x) for d, ev, x in ops]
             out.append({"via": "gateway", "mode": None, "callers": callers, "events": events, "dead": dead, "seq": name})
     return out
+
+
+def lifecycle_from_behaviour(beh: list[tuple[str, dict]], silent: list[int]) -> dict | None:
+    """A behaviour of spec/GwyLife.tla (TLC -simulate: [(action, state)]) as a gateway-level scenario: the application's
+    and the environment's steps (AStartCall, AStopCall, ADied) become events - half a second after the previous one when
+    the model was at rest before the step, otherwise at the same virtual instant, as many loop iterations later as the
+    model took internal steps in between; one caller follows every step, one more calls at the end.  How the real loop
+    interleaves its callbacks with these calls is the code's business: GwyLifeTrace folds whatever happened."""
+    t, last_t, hops, events, callers, n = 0.1, None, 0, [], [], 0
+    prev = None
+    ann_seen = False
+    nstart, busy_until = 0, 0.0
+    for act, st in beh:
+        g = st.get("g") if isinstance(st, dict) else None
+        if act in ("AStartCall", "AStopCall", "ADied"):
+            quiet = prev is None or (not prev["q"] and prev["st"] == "none" and prev["sp"] == "none" and not prev["ann"])
+            if quiet or last_t is None:
+                t = round(max(t + 0.5, busy_until), 7)
+                h = 0
+            else:
+                if ann_seen:        # the model let the transport announce its connection first: that takes the signature delay
+                    t = round(last_t + 0.05 + EPS, 7)
+                h = min(hops, 6)
+            ev = {"AStartCall": "gw_start", "AStopCall": "gw_stop", "ADied": "conn_lost"}[act]
+            e = {"t": t, "ev": ev, "hops": h}
+            if act == "ADied" and g is not None and g["q"]:
+                e["why"] = "transport" if g["q"][-1][2] else None
+            events.append(e)
+            n += 1
+            if n <= 6:
+                callers.append(_gw_caller(n, round(t + 0.02, 7), api="task" if n % 2 else "async",
+                                          tx=[{"echo": None, "reply": None}] if n % 3 == 0 else None))
+            last_t, hops, ann_seen = t, 0, False
+            if act == "AStartCall":
+                nstart += 1
+            if act == "AStartCall":      # a start() may take the factory's time-out (3 s) or its own second one (1 s) to come back
+                busy_until = t + 4.5
+        elif act == "AAnnounce":
+            hops, ann_seen = 0, True
+        else:
+            hops += 1
+        if g is not None:
+            prev = g
+    if not events or events[0]["ev"] != "gw_start":
+        return None
+    callers.append(_gw_caller(len(callers) + 1, round(t + 4.0, 7)))
+    return {"via": "gateway", "mode": None, "manual_start": True, "callers": callers, "events": events,
+            "dead": list(silent), "seq": "model:" + ",".join(e["ev"][3:] if e["ev"].startswith("gw_") else "died" for e in events)}
